@@ -81,7 +81,7 @@ def draw_frozen_phonons(ch, max_configs=4):
 
 
 def draw_potential(ch, kinds=("atoms", "fp", "ensemble", "array", "crystal"), weights=None, finite_p=0.08,
-                   exit_p=0.35, max_configs=4):
+                   exit_p=0.35, max_configs=4, crystal_fp_p=0.5):
     kind = ch.pick(list(kinds), "pot-kind", weights=weights)
     atoms = draw_atoms(ch, zmax=4.0 if kind == "crystal" else None)
     c = atoms["cell"][2]
@@ -94,7 +94,7 @@ def draw_potential(ch, kinds=("atoms", "fp", "ensemble", "array", "crystal"), we
         r["fp"] = draw_frozen_phonons(ch, max_configs)
     if kind == "crystal":
         r["repetitions"] = [ch.range(1, 2, "rep-x"), ch.range(1, 2, "rep-y"), ch.range(1, 3, "rep-z")]
-        if ch.bool(0.5, "crystal-fp"):
+        if ch.bool(crystal_fp_p, "crystal-fp"):
             r["fp"] = draw_frozen_phonons(ch, 3)
             r["num_frozen_phonons"] = ch.range(1, 3, "crystal-nfp")
             r["crystal_seeds"] = ch.range(1, 1000, "crystal-seed")
